@@ -99,7 +99,7 @@ func writeEvidence(cfg CheckCfg, tier string, seed int, reports []*engine.Report
 		"inconclusive":                  inconclusive,
 		"load_and_ssa_build_s":          load.Seconds(),
 		"solver":                        "z3 4.8.12 (/usr/bin/z3 -in), one process per worker, push/pop, answers read behind a per-query echo marker; unsettled queries: one-shot race of z3 4.8.12 and z3 5.1.0",
-		"solver_cross_check":            map[string]interface{}{"what": "every 40th unsat answer of the incremental session (obligations and branch prunings) re-decided by a fresh z3 5.1.0 process, 5 s cap", "agreed": crossA, "disagreed": crossD, "undecided_in_5s": crossU},
+		"solver_cross_check":            map[string]interface{}{"what": "every 40th unsat answer of the incremental session (obligations and branch prunings) re-decided by a fresh z3 5.1.0 process, 2 s cap, at most 400 samples per harness, sampling stops after 25 undecided", "agreed": crossA, "disagreed": crossD, "undecided_within_cap": crossU},
 		"if_converted_branches":         ifc,
 		"exhaustive":                    false,
 		"explanation":                   "bounded symbolic execution of the real code from go/ssa; every obligation is an SMT query (unsat = holds for all inputs of the path)",
